@@ -40,12 +40,18 @@ SHAPES = ["heating", "cooling", "both", "flat"]
 CLIMATES = ["continental", "mild", "hot"]
 ZONES = ["UTC", "America/Chicago"]
 DRAWS = [0, 1, 2]
+NOISES = [0.01, 0.001]   # "at most 1 %": the maximum and a tenth of it
+FAMILIES = ["daily", "billing", "daily_legacy"]
 
 
 def grid(tier):
     out = []
-    for fam, shape, base, slope, hbp, cbp, climate, zone, draw in itertools.product(("daily", "billing"), SHAPES, BASES, SLOPES, HBPS, CBPS,
-                                                                                   CLIMATES, ZONES, DRAWS):
+    for fam, noise, shape, base, slope, hbp, cbp, climate, zone, draw in itertools.product(FAMILIES, NOISES, SHAPES, BASES, SLOPES, HBPS, CBPS,
+                                                                                          CLIMATES, ZONES, DRAWS):
+        if fam == "daily_legacy" and (zone != ZONES[0] or draw != 0):
+            continue
+        if noise != NOISES[0] and draw != 0:
+            continue
         if shape == "flat" and (slope != SLOPES[0] or hbp != HBPS[0] or cbp != CBPS[0]):
             continue
         if shape == "heating" and cbp != CBPS[0]:
@@ -58,12 +64,15 @@ def grid(tier):
                 continue
             h = (SHAPES.index(shape) + BASES.index(base) + SLOPES.index(slope) + HBPS.index(hbp) + CBPS.index(cbp)
                  + CLIMATES.index(climate) + ZONES.index(zone))
-            if h % (3 if fam == "daily" else 2) != 0:
+            if noise == NOISES[0] and fam != "daily_legacy":
+                if h % (3 if fam == "daily" else 2) != 0:
+                    continue
+            elif (h + FAMILIES.index(fam)) % 6 != 1:   # low noise and the legacy profile: a sixth of the points each
                 continue
         out.append({"family": fam, "shape": shape, "base": base, "slope": slope, "hbp": hbp, "cbp": cbp, "climate": climate,
-                    "zone": zone, "draw": draw})
+                    "zone": zone, "draw": draw, **({"noise": noise} if noise != NOISES[0] else {})})
         # the smoothed members of the family (daily models only: the billing model family has no smoothed shapes)
-        if fam == "daily" and shape != "flat" and (tier == "thorough" or h % 2 == 0):
+        if fam == "daily" and noise == NOISES[0] and shape != "flat" and (tier == "thorough" or h % 2 == 0):
             out.append(dict(out[-1], smooth=True))
     # every 4th case uses a model OBJECT that was already fitted on another building (a building that follows the model must be
     # recovered by the fit whatever the object was used for before)
@@ -98,6 +107,10 @@ def truth_fn(case):
 def run_case(case):
     import opendsm.eemeter as em
 
+    class LegacyDaily(em.DailyModel):   # the legacy profile of the daily model (constructor argument model="legacy")
+        def __init__(self):
+            super().__init__(model="legacy")
+
     g = gen(case)
     truth_of = truth_fn(case)
     zone = case["zone"]
@@ -109,28 +122,30 @@ def run_case(case):
         return {"rejected": "fewer than 30 baseline days below the heating balance point"}
     if g["cs"] > 0 and int((Tn > g["cbp"]).sum()) < 30:
         return {"rejected": "fewer than 30 baseline days above the cooling balance point"}
+    noise = case.get("noise", NOISES[0])
     if case.get("smooth"):
         rng = np.random.default_rng(4100 + case["draw"])
-        y = pd.Series(truth_of(Tn) * (1 + 0.01 * rng.uniform(-1, 1, len(Tn))), index=idx, name="observed")
+        y = pd.Series(truth_of(Tn) * (1 + noise * rng.uniform(-1, 1, len(Tn))), index=idx, name="observed")
     else:
-        y = ds.daily_usage(T, noise=0.01, seed=100 + case["draw"], **g)
+        y = ds.daily_usage(T, noise=noise, seed=100 + case["draw"], **g)
     idx2 = ds.local_days("2022-01-01", 365, zone)
     T2 = ds.daily_temperature(idx2, case["climate"], 40 + case["draw"])
-    key = {"family": case["family"], "gp": f"{case['shape']}{'~smooth' if case.get('smooth') else ''}|base={case['base']}|slope={case['slope']}|hbp={case['hbp']}|cbp={case['cbp']}|{case['climate']}"}
+    key = {"family": case["family"], **({"noise": noise} if noise != NOISES[0] else {}),
+           "gp": f"{case['shape']}{'~smooth' if case.get('smooth') else ''}|base={case['base']}|slope={case['slope']}|hbp={case['hbp']}|cbp={case['cbp']}|{case['climate']}"}
     def fresh(cls):
         m = cls()
         if case.get("reused_object"):
             other = ds.daily_usage(T, noise=0.01, seed=7, base=30.0, hs=2.0, hbp=50.0, cs=0.0, cbp=70.0) if g["cs"] > 0 or g["hs"] == 0 else \
                 ds.daily_usage(T, noise=0.01, seed=7, base=30.0, hs=0.0, hbp=50.0, cs=2.0, cbp=66.0)
-            if cls is em.DailyModel:
+            if issubclass(cls, em.DailyModel) and cls is not em.BillingModel:
                 m.fit(em.DailyBaselineData(pd.DataFrame({"observed": other, "temperature": T}), is_electricity_data=True), ignore_disqualification=True)
             else:
                 m.fit(em.BillingBaselineData.from_series(ds.billing_reads(other), T, is_electricity_data=True), ignore_disqualification=True)
         return m
 
     try:
-        if case["family"] == "daily":
-            model = fresh(em.DailyModel).fit(em.DailyBaselineData(pd.DataFrame({"observed": y, "temperature": T}), is_electricity_data=True),
+        if case["family"] in ("daily", "daily_legacy"):
+            model = fresh(em.DailyModel if case["family"] == "daily" else LegacyDaily).fit(em.DailyBaselineData(pd.DataFrame({"observed": y, "temperature": T}), is_electricity_data=True),
                                         ignore_disqualification=True)
             r1 = em.DailyReportingData(pd.DataFrame({"temperature": T}), is_electricity_data=True)
             r2 = em.DailyReportingData(pd.DataFrame({"temperature": T2}), is_electricity_data=True)
